@@ -20,6 +20,26 @@ CHECKS = {
         "operations is taken from the docstrings and from the package's own call sites.",
         "DESIGN.md §4 C13",
     ),
+    "C09": (
+        "PBT with exact-count postconditions: generated samples, bucket counts recomputed from values_orders with "
+        "the reference mapping and compared with min_freq thresholds; boundary claims of ContinuousDiscretizer",
+        "Generated samples (continuous/discrete/spiked/tied, ordinal rankings with unobserved levels, categorical "
+        "incl. numeric-valued and empty-string categories) x 6 discretizer classes x 10 min_freq values; "
+        "postconditions checked with exact integer counts. Exploration over bounded sizes.",
+        "Trusted: reference mapping, integer counting. One open known finding (D9, rounding gap of "
+        "q=round(1/min_freq)) is listed in known_findings.json and reported as KNOWN-FINDING.",
+        "DESIGN.md §4 C09",
+    ),
+    "C03": (
+        "PBT: structural contiguity read from values_orders (exact Fraction target rates for categorical order) + "
+        "metamorphic probing of transform on boundaries, neighbouring floats, midpoints and extremes",
+        "Generated samples x Discretizer family and the three carvers; contiguity of every fitted group in the "
+        "feature's natural order and monotone right-closed step behaviour of transform over probe points far "
+        "outside the training range. Exploration over bounded sizes.",
+        "Trusted: reference mapping, numpy.nextafter, an independently fitted Discretizer to name the carver's base "
+        "modalities of categorical features.",
+        "DESIGN.md §4 C03",
+    ),
     "C04": (
         "PBT with a reference oracle: table-first generated samples, transform(X_train) compared with the "
         "mapping recomputed from values_orders (list+content) only; metamorphic string-form probe",
